@@ -107,14 +107,17 @@ fn opt_s(x: Option<String>) -> J {
 /// strip turbofish generic argument lists `::<...>` from a def path so that anchors are stable:
 /// `stream_dispatch::VirtualSocket::<T, E>::poll` -> `stream_dispatch::VirtualSocket::poll`
 fn strip_generics(p: &str) -> String {
+    // removes generic argument lists: turbofish `::<..>` and `Ident<..>`; keeps the `<` that opens a
+    // qualified path (`<X as Trait>::f`), which never follows an identifier character.
     let b: Vec<char> = p.chars().collect();
     let mut out = String::new();
     let mut i = 0;
     while i < b.len() {
-        if b[i] == ':' && i + 2 < b.len() && b[i + 1] == ':' && b[i + 2] == '<' {
-            // skip balanced <...>
+        let is_turbofish = b[i] == ':' && i + 2 < b.len() && b[i + 1] == ':' && b[i + 2] == '<';
+        let is_generic = b[i] == '<' && i > 0 && (b[i - 1].is_alphanumeric() || b[i - 1] == '_');
+        if is_turbofish || is_generic {
             let mut depth = 0i32;
-            let mut j = i + 2;
+            let mut j = if is_turbofish { i + 2 } else { i };
             while j < b.len() {
                 if b[j] == '<' {
                     depth += 1;
@@ -669,7 +672,7 @@ impl rustc_driver::Callbacks for Cb {
         let Ok(out_path) = std::env::var("UTPSA_OUT") else {
             return Compilation::Continue;
         };
-        let mut top: Vec<(&'static str, J)> = vec![("crate", s(cname)), ("schema", J::Int(3))];
+        let mut top: Vec<(&'static str, J)> = vec![("crate", s(cname)), ("schema", J::Int(4))];
         top.push(("is_test", J::Bool(tcx.sess.is_test_crate())));
 
         // ------------------------------------------------------------ ADTs, consts, impls
